@@ -49,21 +49,27 @@ fn show(items: &[Item]) -> String {
     format!("[{}]", parts.join(", "))
 }
 
-/// mode: bit0 = html, bit1 = checks, bit2 = behind a tag name (BytesStart::from_content)
+/// mode: bit0 = html, bit1 = checks, bit2 = behind a tag name (BytesStart::from_content),
+/// bit3 = `with_checks` is not called at all (the documented default: duplicate checking on)
 pub fn check_one(s: &str, mode: u8) -> Result<Vec<Item>, String> {
     let html = mode & 1 != 0;
-    let checks = mode & 2 != 0;
+    let default_checks = mode & 8 != 0;
+    let checks = mode & 2 != 0 || default_checks;
     let tagged = mode & 4 != 0;
     let got = guarded(|| {
         if tagged {
             let content = format!("t{}", s);
             let e = BytesStart::from_content(content.as_str(), 1);
             let mut it = if html { e.html_attributes() } else { e.attributes() };
-            it.with_checks(checks);
+            if !default_checks {
+                it.with_checks(checks);
+            }
             drain(it, content.len())
         } else {
             let mut it = if html { Attributes::html(s, 0) } else { Attributes::new(s, 0) };
-            it.with_checks(checks);
+            if !default_checks {
+                it.with_checks(checks);
+            }
             drain(it, s.len())
         }
     })
@@ -90,7 +96,7 @@ fn mode_name(m: u8) -> String {
     format!(
         "{}{}{}",
         if m & 1 != 0 { "html" } else { "xml" },
-        if m & 2 != 0 { "+checks" } else { "" },
+        if m & 8 != 0 { "+default checks (with_checks not called)" } else if m & 2 != 0 { "+checks" } else { "" },
         if m & 4 != 0 { "+behind tag name" } else { "" }
     )
 }
@@ -98,7 +104,7 @@ fn mode_name(m: u8) -> String {
 /// F2 signature (only consulted while the finding is open): duplicate checking on, the observed
 /// items agree with the grammar up to and including a `Duplicated` error.
 fn is_f2(s: &str, mode: u8) -> bool {
-    if mode & 2 == 0 {
+    if mode & 2 == 0 && mode & 8 == 0 {
         return false;
     }
     let html = mode & 1 != 0;
@@ -125,7 +131,7 @@ pub fn run(ctx: &Ctx) {
     ctx.set_rule(
         "every string up to length N over {space tab = \" ' a b /} taken as the whole attribute area (Attributes::new / html at \
          offset 0) and behind a tag name (BytesStart::from_content), in XML and HTML mode, with and without duplicate checks \
-         (8 modes); every byte pair in blank-sensitive positions of four attribute templates (which bytes separate attributes); \
+         (8 modes; the attribute lists also with `with_checks` never called, where the documented default — checking on — must apply); every byte pair in blank-sensitive positions of four attribute templates (which bytes separate attributes); \
          every ordered list of up to 4 attributes from a pool of 8 well-formed (incl. keys that differ only in case) and 9 faulty items (incl. duplicates with blanks around `=`) with three separators. Oracle: \
          the item sequence of the reference grammar (key bytes, value bytes, error variant + positions, documented recovery point), \
          then None forever (3 extra calls). non-trivial = the grammar yields at least one item; distinct inputs by construction. \
@@ -205,7 +211,7 @@ pub fn run(ctx: &Ctx) {
         decode_upto(k, 4, i / 3, &mut d);
         let s: Vec<&str> = d.iter().map(|&x| pool[x as usize]).collect();
         let s = s.join(sep);
-        for mode in 0..8u8 {
+        for mode in [0u8, 1, 2, 3, 4, 5, 6, 7, 8, 9, 12, 13] {
             acc.evaluations += 1;
             acc.traces += 1;
             match check_one(&s, mode) {
